@@ -139,7 +139,7 @@ PROPS = {
     "C02": ledger_prop(),
     "C03": ledger_prop(),
     "C06": dict(ledger_prop(), drivers=LEDGER_DRIVERS + [{"name": "caps", "args": {"quick": [200], "thorough": [4000]}}]),
-    "C16": ledger_prop(),
+    "C16": dict(ledger_prop(), drivers=LEDGER_DRIVERS + [{"name": "struct", "args": {"quick": [60], "thorough": [2000]}}]),
     "C17": dict(ledger_prop(), drivers=LEDGER_DRIVERS + [{"name": "caps", "args": {"quick": [300], "thorough": [8000]}}]),
     "C15": {
         "models": [
